@@ -93,6 +93,7 @@ type Config struct {
 	Sched      []int  `json:"sched,omitempty"`     // C05: schedule
 	NameSet    int    `json:"names,omitempty"`     // which set of collection names the indices refer to
 	Framed     bool   `json:"framed,omitempty"`    // value callbacks store every value with a 4-byte trailer (ItemValLength = len(Val)+4)
+	Masked     bool   `json:"masked,omitempty"`    // value callbacks store every value XOR-masked (same length, different bytes on file)
 	CmpViaSet  bool   `json:"cmpviaset,omitempty"` // comparators re-installed by SetCollection after a load (no KeyCompareForCollection callback unless its bit is set)
 }
 
